@@ -927,7 +927,7 @@ def classify_loop(A: Analysis, fn: FuncInfo, loop: ast.While) -> tuple[str, str]
 @prop(
     "C18",
     technique="loop-progress rule: every `while` in the call-graph closure of Submitter.__call__ is classified (shrinks-by-pop / counter+raise / stall exit recognised algorithmically; external waits and structural descents through an audited table keyed by function and tested names); cycle detection obligation in DiGraph.sorting",
-    decides="every while-loop reachable from a submission either provably makes progress or has an exit taken when an iteration made no progress; in particular DiGraph.sorting leaves its loop with an error when a pass sorts no node (a cycle), and the async scheduling loop has a bounded stall poll that raises. A new loop on the path, or one of today's loops losing its exit, is a violation.",
+    decides="every while-loop reachable from a submission either provably makes progress or has an exit taken when an iteration made no progress; in particular DiGraph.sorting leaves its loop with an error when a pass sorts no node (a cycle), the async scheduling loop has a bounded stall poll that raises, and a job whose future raised is marked errored (it would otherwise stay queued with nothing in flight, and the loop would spin). A new loop on the path, or one of today's loops losing its exit, is a violation.",
     not_decided="loops that wait for an external party (file lock holder, batch scheduler, subprocess EOF) -- listed with the assumption they rest on; recursion depth of graph walks not reachable from the submission path; termination of user task bodies.",
     level_note="Trusted: the audited table AUDITED_LOOPS in rules/sched.py (one reason per row); call-graph closure by class-hierarchy analysis (over-approximate).",
 )
@@ -957,6 +957,25 @@ def check_c18(A: Analysis, col: Collector):
                 col.assume(f"{f.qualname} loop `while {norm(lp.test, 40)}`: {AUDITED_LOOPS[key]}")
         else:
             col.fail("C18.loop", f.qualname, f"no-progress-argument:{key[1]}", f"`while {norm(lp.test, 60)}` has no recognised progress argument: nothing pops from the tested collection unconditionally, there is no counter with a raise and no exit taken when an iteration makes no progress -- the submission can hang (e.g. a cyclic graph never empties the unsorted list)", A.loc(lp))
+    # the async loop's progress argument needs every job handed to the worker to leave `queued` once its
+    # future has completed: by its result (found on disk) or, when the future raised -- possibly before any
+    # result was written: a failing hook, an unpicklable job or return value -- by being marked errored in
+    # the handler. Otherwise get_runnable_tasks keeps offering it, it is not spawned again (it is in the
+    # spawned-record), nothing is in flight and the stall poll is never entered: the loop spins forever.
+    ea = A.func(f"{SUBMITTER}.expand_workflow_async")
+    col.scope(ea.qualname)
+    tries = [t for t in walk_own(ea.node) if isinstance(t, ast.Try) and any(isinstance(c, ast.Call) and isinstance(c.func, ast.Attribute) and c.func.attr == "result" and not c.args for st in t.body for c in ast.walk(st))]
+    A.anchor("try around <future>.result() in expand_workflow_async", tries)
+    for t in tries:
+        for h in t.handlers:
+            marks = [a_ for st in h.body for a_ in ast.walk(st) if isinstance(a_, ast.Assign) and any(isinstance(tg, ast.Attribute) and tg.attr == "_errored" for tg in a_.targets) and isinstance(a_.value, ast.Constant) and a_.value.value is True]
+            reraises = bool(h.body) and isinstance(h.body[-1], ast.Raise)
+            if marks:
+                col.ok("C18.failed-future", "a job whose future raised is marked errored in the handler, so it leaves the queued set even if it left no result behind", A.loc(marks[0]))
+            elif reraises:
+                col.ok("C18.failed-future", "the handler re-raises: the failure of a future ends the loop", A.loc(h))
+            else:
+                col.fail("C18.failed-future", ea.qualname, "failed-future-leaves-job-queued", "the handler of a failed future only records the error: a job that failed without leaving a result (pre_run hook, unpicklable input or return value) stays in NodeExecution.queued, is offered again every round but never spawned again, nothing is in flight, the stall poll (`not tasks and not task_futures`) is never entered and the collected errors are only raised in a `finally` that is never reached -- the submission spins forever", A.loc(h))
     # recursive graph walks without visited set: only if reachable from the submission path
     names = {f.qualname for f in cl}
     for q in ("pydra.engine.graph.DiGraph._checking_successors_nodes", "pydra.engine.graph.DiGraph._checking_path"):
